@@ -10,7 +10,7 @@ Decided clauses (DESIGN.md section 4, C10):
 import re
 
 from .. import e1
-from ..model import (walk, strip, is_call, call_obj, call_args, render, short, AnalysisBroken)
+from ..model import (walk, strip, is_call, call_obj, call_args, render, short, AnalysisBroken, always_exits)
 
 EXPLANATION = ("Static typestate / class / phase-order rules over clang's resolved AST of every product "
                "translation unit: references into std::vector members are tracked against may-grow summaries "
@@ -38,6 +38,7 @@ def declare(rep):
     rep.rule("C10.init-before-use", "scalar fields of node/face/edge/cell with no initialiser are written by an earlier phase of solver::solver + run_iteration than the first phase that reads them, also for elements created later", floor=10)
     rep.rule("C10.format-buffer", "every format_number call has a literal format whose maximal output for the argument fits the 30-byte buffer", floor=25)
     rep.rule("C10.face-index", "the box index f->global_face_id_ used by the contact look-up equals the face's position in face_lst_ (no out-of-range / foreign box read)", floor=1)
+    rep.rule("C10.index-validation", "a throwing range check 'i >= container.size()' on an index that is then used as a subscript compares in unsigned arithmetic (a negative i converts to a huge value and is rejected) or also rejects i < 0: a bound narrowed or made signed by a cast lets negative / wrapped indices through to the subscript", floor=1)
     rep.rule("C10.remove-index-sorted", "the index vector passed to remove_index is ascending (sorted before the call, or filled by an ascending loop)", floor=6)
 
 
@@ -570,6 +571,45 @@ def _stmt_of(fi, n):
     return cur
 
 
+_SIGNED_T = re.compile(r"^(const )?(signed )?(short|int|long|long long|char|signed char|ptrdiff_t|std::ptrdiff_t|int16_t|int32_t|int64_t|int8_t)( int)?$")
+
+
+def run_index_validation(rep, prog):
+    """if(i >= v.size()) throw ...;   - the comparison must not be made in signed arithmetic unless i < 0 is rejected too"""
+    for fn in product_fns(prog):
+        if not isinstance(fn.get("body"), dict):
+            continue
+        fi = None
+        for s_ in walk(fn["body"]):
+            if s_.get("k") != "IfStmt" or not isinstance(s_.get("then"), dict) or not (always_exits(s_["then"]) and any(x.get("k") == "CXXThrowExpr" for x in walk(s_["then"]))):
+                continue
+            for c in walk(s_["cond"]):
+                if not (c.get("k") == "BinaryOperator" and c.get("op") in (">=", ">", "<", "<=")):
+                    continue
+                sides = [c["c"][0], c["c"][1]]
+                sz = [i for i, x in enumerate(sides) if any(y.get("k") == "CXXMemberCallExpr" and y.get("callee", "").split("::")[-1] == "size" for y in walk(x))]
+                if len(sz) != 1:
+                    continue
+                bound, idx = sides[sz[0]], sides[1 - sz[0]]
+                # the operand types after the usual arithmetic conversions are the types of the two children
+                bt = (bound.get("t") or "").strip()
+                it = (idx.get("t") or "").strip()
+                raw_idx = strip(idx)
+                while raw_idx.get("k") in ("ImplicitCastExpr", "ParenExpr") and raw_idx.get("c"):
+                    raw_idx = strip(raw_idx["c"][0])
+                rt = (raw_idx.get("t") or "").strip()
+                if not _SIGNED_T.match(rt) or raw_idx.get("k") in ("IntegerLiteral", "FloatingLiteral"):
+                    continue        # the index itself is unsigned / the size is compared with a constant
+                signed_cmp = bool(_SIGNED_T.match(bt)) and bool(_SIGNED_T.match(it))
+                fi = fi or prog.index(fn)
+                neg_checked = any(c2.get("k") == "BinaryOperator" and c2.get("op") in ("<", "<=", ">", ">=") and render(raw_idx) in render(c2) and any(strip(z).get("k") == "IntegerLiteral" and strip(z).get("v") in ("0", 0) for z in c2["c"]) for c2 in walk(s_["cond"]))
+                if signed_cmp and not neg_checked:
+                    rep.violation("C10.index-validation", prog, fn, c, "range check made in signed arithmetic",
+                                  "%s rejects '%s' by comparing the signed index (%s) with a bound converted to %s: the comparison is signed, so a negative index (e.g. a value above the type's positive range read from a file, which wraps) passes the check and is then used as a subscript in front of the container" % (fn["qn"], short(c, 70), rt, bt))
+                else:
+                    rep.ok("C10.index-validation", prog, fn, c, "'%s' compares in %s%s" % (short(c, 60), it or "unsigned arithmetic", " and rejects negative values" if neg_checked and signed_cmp else ""))
+
+
 def run(rep, prog, tier):
     if not rep.rules:
         declare(rep)
@@ -578,5 +618,6 @@ def run(rep, prog, tier):
     run_e8(rep, prog)
     run_format(rep, prog)
     run_remove_index(rep, prog)
+    run_index_validation(rep, prog)
     from .c06 import face_index
     face_index(rep, prog, prog.config[0], rule="C10.face-index")
